@@ -79,6 +79,103 @@ pub fn build_with(rng: &mut Rng, nconn: usize, transitions: bool, oneway_flood: 
     Built { scn, chains }
 }
 
+/// Open reply streams next to a client that keeps the server busy: one connection pipelines a burst of
+/// 150..400 small calls; two or three others have subscribed before (with a call pipelined behind the
+/// subscription); while the burst is being worked off (from inside successive `handle()` calls) some of the
+/// streams produce items or end, others stay quiet, and now and then another client's call arrives.
+pub fn build_flood(rng: &mut Rng) -> Scenario {
+    let mut scn = Scenario::default();
+    let nsub = rng.range(2, 3);
+    let victim = rng.chance(1, 2);
+    let flood_len = rng.range(150, 400);
+    // conn 0: the flooder
+    let calls: Vec<CallSpec> = (0..flood_len)
+        .map(|j| CallSpec { kind: if rng.chance(1, 12) { Kind::Fail } else { Kind::Echo }, seq: 1 + j as u32, oneway: rng.chance(1, 10), more: false, payload: "p".repeat(rng.below(4)) })
+        .collect();
+    let mut c = ConnScn { calls, ..Default::default() };
+    let fc = frame_cuts(&c.stream(0));
+    c.cuts = fc.into_iter().filter(|_| rng.chance(1, 120)).collect();
+    let flood_chunks = c.chunks(0).len();
+    scn.conns.push(c);
+    // subscribers
+    for s in 0..nsub {
+        let mut calls = Vec::new();
+        if rng.chance(1, 3) {
+            calls.push(CallSpec { kind: Kind::Echo, seq: 1, oneway: false, more: false, payload: "a".into() });
+        }
+        let seq = calls.len() as u32 + 1;
+        calls.push(CallSpec { kind: Kind::Sub, seq, oneway: false, more: true, payload: String::new() });
+        calls.push(CallSpec { kind: Kind::Echo, seq: seq + 1, oneway: false, more: false, payload: format!("behind{s}") });
+        scn.conns.push(ConnScn { calls, ..Default::default() });
+    }
+    if victim {
+        scn.conns.push(ConnScn { calls: vec![CallSpec { kind: Kind::Echo, seq: 1, oneway: false, more: false, payload: "v".into() }], ..Default::default() });
+    }
+    let n = scn.conns.len();
+    let mut order: Vec<usize> = (0..n).collect();
+    rng.shuffle(&mut order);
+    let mut steps: Vec<Step> = order.iter().map(|i| Step { ev: Ev::Accept(*i), mode: *rng.pick(&[Mode::Quiesce, Mode::Batch]) }).collect();
+    let mut subs: Vec<usize> = (1..=nsub).collect();
+    rng.shuffle(&mut subs);
+    for i in &subs {
+        steps.push(Step { ev: Ev::Deliver(*i), mode: Mode::Quiesce });
+    }
+    // the flood starts; everything below happens while the server is busy with it
+    steps.push(Step { ev: Ev::Deliver(0), mode: Mode::Quiesce });
+    // which streams are busy (the others stay quiet and open)
+    let nbusy = rng.range(1, nsub - 1);
+    let busy: Vec<usize> = subs.iter().copied().take(nbusy).collect();
+    let mut next_item = vec![0u32; n];
+    let mut closed = vec![false; n];
+    let mut chunks_left = flood_chunks - 1;
+    let mut victim_sent = !victim;
+    for _ in 0..rng.range(10, 60) {
+        let ev = match rng.below(8) {
+            0 | 1 | 2 => {
+                let b = *rng.pick(&busy);
+                if closed[b] {
+                    Ev::Nop
+                } else {
+                    let seq = scn.conns[b].calls.iter().find(|k| k.kind == Kind::Sub).unwrap().seq;
+                    next_item[b] += 1;
+                    Ev::Item { client: b as u32, seq, n: next_item[b] - 1, continues: Some(true) }
+                }
+            }
+            3 => {
+                let b = *rng.pick(&busy);
+                if closed[b] || rng.chance(1, 2) {
+                    Ev::Nop
+                } else {
+                    closed[b] = true;
+                    let seq = scn.conns[b].calls.iter().find(|k| k.kind == Kind::Sub).unwrap().seq;
+                    Ev::Close { client: b as u32, seq }
+                }
+            }
+            4 if !victim_sent => {
+                victim_sent = true;
+                Ev::Deliver(n - 1)
+            }
+            5 if chunks_left > 0 => {
+                chunks_left -= 1;
+                Ev::Deliver(0)
+            }
+            _ => Ev::Nop,
+        };
+        steps.push(Step { ev, mode: Mode::InHandle });
+    }
+    // the rest of the flood, then whatever is left
+    for _ in 0..chunks_left {
+        steps.push(Step { ev: Ev::Deliver(0), mode: Mode::InHandle });
+    }
+    if !victim_sent {
+        steps.push(Step { ev: Ev::Deliver(n - 1), mode: Mode::InHandle });
+    }
+    steps.push(Step { ev: Ev::Nop, mode: Mode::Quiesce });
+    scn.steps = steps;
+    scn.wake = rng.chance(1, 3);
+    scn
+}
+
 fn walk<'a>(e: &'a Ev, f: &mut dyn FnMut(&'a Ev)) {
     match e {
         Ev::Multi(v) => v.iter().for_each(|e| walk(e, f)),
@@ -206,6 +303,7 @@ fn check(scn: &Scenario, rep: &mut Report, orders: &mut std::collections::HashSe
     }
     let mut stats = BTreeMap::new();
     let mut vs = fairness(scn, &out, &mut stats);
+    vs.extend(stream_latency("C18", scn, &out, &mut stats));
     // (c) nothing ready is left unserved at a quiescent point: the reference model's progress check
     let mut st2 = BTreeMap::new();
     for (sig, d) in check_reference("C18", scn, &out, &mut st2) {
@@ -294,6 +392,16 @@ pub fn run(cfg: &Cfg) -> Report {
         check(&b.scn, &mut rep, &mut orders);
         if k % 5000 == 1 {
             rep.sample(8, || json!({"kind": "random", "scenario": b.scn.describe()}));
+        }
+    }
+    // (3) open streams next to a client that keeps the server busy
+    let n_flood = cfg.n(1600, 60_000);
+    for k in 0..n_flood {
+        let scn = build_flood(&mut rng);
+        rep.count("streams_under_flood_cases");
+        check(&scn, &mut rep, &mut orders);
+        if k < 2 {
+            rep.sample(10, || json!({"kind": "streams-under-flood", "scenario": scn.describe().chars().take(900).collect::<String>()}));
         }
     }
     rep.add("distinct_service_orders", orders.len() as u64);
